@@ -223,14 +223,17 @@ PROPS = {
                         "reduce_layout (wiring-time tree for fixed TSL) is not under contract; exercised by the bounded enumeration only"],
     },
     "C05": {
-        "modules": ["contracts.c05_collections", "contracts.c05_tsd", "contracts.c05_keystore", "contracts.c05_window"],
+        "modules": ["contracts.c05_collections", "contracts.c05_tsd", "contracts.c05_keystore", "contracts.c05_slotstate", "contracts.c05_window"],
         "level": "proof",
         "design_ref": "DESIGN.md section 8, C05",
         "trusted_base": [
             "contract of KeySlotStore as used by the set / dictionary kernels: now PROVED on key_slot_store.h (c05_keystore: insert x3, "
             "remove_slot, erase_pending, find_slot, reserve_to under the representation invariant KInv; lemma: proved post => the three "
-            "outcomes the callers assume).  What that layer trusts in turn: StableSlotStore<ConstructedAndLive> state transitions "
-            "(mark_staged/live/pending_erase/free: one-line tag or bitmap updates in impl/stable_slot_store_impl.h), the ankerl hash "
+            "outcomes the callers assume).  The slot-state transitions that layer uses (constructed / live / mark_staged / mark_live / "
+            "mark_pending / mark_free) are proved in turn on BOTH physical representations of impl/stable_slot_store_impl.h (bitmap and "
+            "tagged pointer, c05_slotstate), the bitmap one on top of SlotBitmap::set / reset / test proved against the bit view "
+            "(slot_bitmap.h).  Still trusted: StableSlotStore's dispatch on the representation tag (a switch forwarding to the "
+            "implementation), SlotPointer::set_tag / has_enum, bit_mask(b) = the one-hot word for b mod 64, the ankerl hash "
             "index (find(k) returns a member slot with an equal key or end(); insert/reserve may throw), StoragePlan / ValueOps key "
             "construction (may throw; writes the payload), slot observers (do not re-enter the store, do not throw)",
             "dictionary kernels: the element ops table (has_current_value_impl / tracking_impl) reads the child's state; "
